@@ -12,8 +12,8 @@ Line protocol for C16 (strings are hex byte strings, `-` = empty):
            elems `r<pos>` / `m` (state marker) / `c<maxPos>` (command), comma separated, `-` = none
            rhs   `s<pos>` / `x<k>` (k-th extracted mid-rule nonterminal); mids `symRefCount:maxPos;…` | `_`
   eval <vars> <refs> <stack> <lhs> <want> → what every reference evaluates to on the given parser stack, `,`-joined
-           refs `hexid:prop;…` (prop v/s/o/e), stack `val:off:end,…` (bottom first; val = printed value, `<nil>`
-           for a nil interface), lhs `val:off:end`; `<want>` is the source-level expectation computed by the
+           refs `hexid:prop;…` (prop v/s/o/e), stack `val:off:end,…` (bottom first; val = printed value with its
+           dynamic type `s=`/`i=`/`t=`, `<nil>` for a nil interface; a typed reference applies the type assertion), lhs `val:off:end`; `<want>` is the source-level expectation computed by the
            harness (ignored by the model, used by `judge`)
   judge <go answer> :: <case>             → `holds` | `violates: why`; for `eval` the answer violates the property
            when it differs from `<want>`; for `remap` when the real Remap is not the position→index map of the
@@ -123,11 +123,18 @@ def parseEntry (s : String) : Option (Entry String) :=
 def parseStack (s : String) : Option (List (Entry String)) :=
   if s == "-" then some [] else (s.splitOn ",").mapM parseEntry
 
-/-- `nn, _ := x.value.(T)`: a nil interface gives the zero value of `T`; every declared type in the harness
-grammars is `string`, whose zero value prints as the empty text -/
-def castNil (typed : Bool) (o : Out String) : Out String :=
+/-- `nn, _ := x.value.(T)` on a printed value. The harness prints a value with its dynamic type
+(`s=…` string, `i=…` int, `t=…` *TV, `<nil>` nil interface); the assertion yields the value when the dynamic
+type is the declared one and the zero value of the declared type otherwise (`s=`, `i=0`, `t=nil`). Declared
+types other than the three used by the harness grammars leave the value unchanged. -/
+def castTo (ty : Str) (o : Out String) : Out String :=
   match o with
-  | .val a => if typed && a == "<nil>" then .val "" else .val a
+  | .val a =>
+    let pre := if ty == cs "string" then some ("s=", "s=") else if ty == cs "int" then some ("i=", "i=0")
+      else if ty == cs "*TV" then some ("t=", "t=nil") else none
+    match pre with
+    | some (p, zero) => if a.startsWith p then .val a else .val zero
+    | none => .val a
   | o => o
 
 def showOut : Out String → String
@@ -142,14 +149,14 @@ def evalOne (v : Vars) (stack : List (Entry String)) (lhs : Entry String) (q : R
   match locate v q.id with
   | .error e => e.toString
   | .ok loc =>
-    let typed := q.prop == .value &&
+    let ty : Str := if q.prop == .value then
       (match loc with
-       | .span _ _ pos => typeOf v pos != []
-       | .lhs raw => v.lhsType != [] && !raw
-       | .absent => false)
+       | .span _ _ pos => typeOf v pos
+       | .lhs raw => if raw then [] else v.lhsType
+       | .absent => []) else []
     match evalLoc v stack lhs loc q.prop with
     | .error e => e.toString
-    | .ok o => showOut (castNil typed o)
+    | .ok o => showOut (if ty == [] then o else castTo ty o)
 
 def showRes (r : Except Err Str) : String :=
   match r with
